@@ -1,11 +1,17 @@
 /-
-Simulation of the two TOC interpreters (`SV.Toc.memTree`, `SV.Toc.dbTree`) on the SpecConforming
-fragment: both stores build the same children maps, the same link counts and the same lookups.
-Part 1: names, the declarative lookup `look`, the invariant `Inv`, directory creation, linking.
+Simulation of the two TOC interpreters (`SV.Toc.memTree`, `SV.Toc.dbTree`) on the fragment
+`SpecConformingR`: directories may be announced more than once (by entries with the same
+attributes).  The memory store keeps the LAST entry of a name as the node, the db store the node
+it made for the FIRST one, so the two trees are related up to a renaming of keys (`canon`); the
+view contains no keys.  Everything lives in the namespace `SV.Toc.R`, next to the older
+single-key development `SV.Lemmas.TocAgree` (fragment `SpecConforming`, used by C02's bridge).
+Parts: 1 names, first/last index, `look`, the two-keyed invariant `Inv`, directory creation,
+linking; 2 the steps and the run; 3 the fragment; 4 views under renaming; 5 attributes; 6 chunk
+tables; 7 the trees and views agree.
 -/
 import SV.Lemmas.Toc
 
-namespace SV.Toc
+namespace SV.Toc.R
 
 /-! ## Basic facts: kids maps -/
 
@@ -82,8 +88,8 @@ theorem walkKids_eq_of_snoc (kids : Key → Kids) (f : Path → Option Key)
       have hq : q.length = n := by simp at hn; omega
       rw [walkKids_snoc, ih q hq, hs]
 
-end SV.Toc
-namespace SV.Toc
+end SV.Toc.R
+namespace SV.Toc.R
 /-! ## pass 1 -/
 
 theorem pass1Go_length (lp : Path) (lr : Option Int) (es : List Entry) :
@@ -267,9 +273,9 @@ theorem firstIdx_eq_none_iff (ms : List MEnt) (p : Path) :
     | none => rfl
     | some f => exact absurd (firstIdx_nonChunk hf) (h f)
 
-end SV.Toc
+end SV.Toc.R
 
-namespace SV.Toc
+namespace SV.Toc.R
 
 /-! ## The fragment of TOCs on which the trees are compared -/
 
@@ -491,9 +497,9 @@ theorem look_dir_unique {ms : List MEnt} (ok : TreeOK ms) {i : Nat} {imps : List
       rw [h2] at h6; cases h6
       rw [← h4, ← h8]
 
-end SV.Toc
+end SV.Toc.R
 
-namespace SV.Toc
+namespace SV.Toc.R
 
 /-! ## Linking a child: effect on walks -/
 
@@ -2223,9 +2229,9 @@ theorem admissible_parent {ms : List MEnt} (ok : TreeOK ms) {i : Nat} {d : Path}
   rw [htake]
   exact ok.parents i d h n h0 hlen
 
-end SV.Toc
+end SV.Toc.R
 
-namespace SV.Toc
+namespace SV.Toc.R
 
 theorem dSetChild_cproj (s : DState) (pid : Key) (b : String) (id : Key) (isDir : Bool) :
     (dSetChild s pid b id isDir).lastEnt = s.lastEnt ∧
@@ -2742,18 +2748,18 @@ theorem run_sim {es : List Entry} (ok : TreeOK (pass1 es))
       exact this
     exact ih (i + 1) sm' sd' (by omega) (by omega) h3 hcp' hlast' hhl'
 
-end SV.Toc
+end SV.Toc.R
 
-namespace SV.Toc
+namespace SV.Toc.R
 
 
-/-! # Part 3: the decidable fragment `SpecConforming` -/
+/-! # Part 3: the decidable fragment `SpecConformingR` -/
 
 theorem get_of_getElem? {α : Type} {l : List α} {i : Nat} {a : α} (h : l[i]? = some a) :
     ∃ hi : i < l.length, l[i] = a := by
   rw [List.getElem?_eq_some_iff] at h; exact h
 
-theorem spec_treeOK {es : List Entry} (sc : SpecConforming es) : TreeOK (pass1 es) := by
+theorem spec_treeOK {es : List Entry} (sc : SpecConformingR es) : TreeOK (pass1 es) := by
   refine ⟨?_, ?_, ?_, ?_⟩
   · intro i j mi mj hi hj hci hcj hp
     obtain ⟨hi', e⟩ := get_of_getElem? hi
@@ -2788,7 +2794,7 @@ theorem spec_treeOK {es : List Entry} (sc : SpecConforming es) : TreeOK (pass1 e
     obtain ⟨j, hj, h1, h2, h3, h4⟩ := sc.hardlinks i hi hh
     exact ⟨j, h1, _, List.getElem?_eq_getElem hj, h2, h3, h4⟩
 
-theorem spec_first {es : List Entry} (sc : SpecConforming es) :
+theorem spec_first {es : List Entry} (sc : SpecConformingR es) :
     ∀ (i : Nat) (m : MEnt), (pass1 es)[i]? = some m → m.e.type = "chunk" →
       ∃ j mj, j < i ∧ (pass1 es)[j]? = some mj ∧ mj.e.type ≠ "chunk" := by
   intro i
@@ -3336,9 +3342,9 @@ theorem mk_run {ms : List MEnt} (ok : TreeOK ms) : ∀ (d i : Nat) (sm smF : MSt
 theorem mk_init (ms : List MEnt) : MK ms 0 { nl := initNl ms } :=
   ⟨fun _ => List.nodup_nil, fun _ _ _ _ h => by cases h⟩
 
-end SV.Toc
+end SV.Toc.R
 
-namespace SV.Toc
+namespace SV.Toc.R
 
 /-! # Part 5: attributes -/
 
@@ -3398,9 +3404,9 @@ theorem attr_agree (b : DbAttr) (a0 : Attr) (nl : Int)
       { normalise (readAttr (writeAttr {} a0)) with nlink := normNlink (readAttr b).numLink } := rfl
   rw [hn0, ← hrt, ← hnl, hrb, hn1]
 
-end SV.Toc
+end SV.Toc.R
 
-namespace SV.Toc
+namespace SV.Toc.R
 
 /-! # Part 6: chunk tables -/
 
@@ -3470,9 +3476,9 @@ theorem pass1_chunk_path {es : List Entry} {i : Nat} {m mp : MEnt}
   rw [h1]
   simp [pass1Ent, hc, hlp]
 
-end SV.Toc
+end SV.Toc.R
 
-namespace SV.Toc
+namespace SV.Toc.R
 
 theorem spec_es_ms {es : List Entry} {u : Nat} {m : MEnt} (hm : (pass1 es)[u]? = some m) :
     ∃ hu : u < es.length, es[u] = m.e := by
@@ -3481,7 +3487,7 @@ theorem spec_es_ms {es : List Entry} {u : Nat} {m : MEnt} (hm : (pass1 es)[u]? =
 
 /-- every `chunk` entry belongs to a `reg` entry before it: it carries that entry's name and pass 1
 has that entry's size at hand -/
-theorem chunk_owner {es : List Entry} (sc : SpecConforming es) :
+theorem chunk_owner {es : List Entry} (sc : SpecConformingR es) :
     ∀ (u : Nat) (m : MEnt), (pass1 es)[u]? = some m → m.e.type = "chunk" →
       ∃ r mr, r < u ∧ (pass1 es)[r]? = some mr ∧ mr.e.type = "reg" ∧ mr.path = m.path ∧
         lrFrom none es u = some mr.e.size := by
@@ -3515,7 +3521,7 @@ def normSize (sz : Int) (e : Entry) : Int :=
   let cs := if e.chunkSize = 0 then sz - e.chunkOffset else e.chunkSize
   if cs = 0 ∧ e.size ≠ 0 then e.size else cs
 
-theorem chunk_size {es : List Entry} (sc : SpecConforming es) {u : Nat} {m : MEnt}
+theorem chunk_size {es : List Entry} (sc : SpecConformingR es) {u : Nat} {m : MEnt}
     (hm : (pass1 es)[u]? = some m) (hc : m.e.type = "chunk") :
     ∃ r mr, r < u ∧ (pass1 es)[r]? = some mr ∧ mr.e.type = "reg" ∧ mr.path = m.path ∧
       m.chunkSize = normSize mr.e.size m.e := by
@@ -3531,15 +3537,15 @@ theorem dbChunkSize_chunk (sz : Int) (e : Entry) (hc : e.type = "chunk") :
   simp [dbChunkSize, normSize, hc]
 
 /-- names of `reg` entries identify them: a chunk carries the name of exactly one file -/
-theorem owner_unique {es : List Entry} (sc : SpecConforming es) {r r' : Nat} {mr mr' : MEnt}
+theorem owner_unique {es : List Entry} (sc : SpecConformingR es) {r r' : Nat} {mr mr' : MEnt}
     (h1 : (pass1 es)[r]? = some mr) (h2 : (pass1 es)[r']? = some mr')
     (hc1 : mr.e.type ≠ "chunk") (hc2 : mr'.e.type ≠ "chunk") (hp : mr.path = mr'.path)
     (hd : mr.e.type ≠ "dir" ∨ mr'.e.type ≠ "dir") : r = r' :=
   nondir_unique (spec_treeOK sc) h1 h2 hc1 hc2 hp hd
 
-end SV.Toc
+end SV.Toc.R
 
-namespace SV.Toc
+namespace SV.Toc.R
 
 /-- chunk entries the db store files under the file named `p` of size `sz` -/
 def PpD (p : Path) (sz : Int) (m : MEnt) : Bool :=
@@ -3575,7 +3581,7 @@ theorem take_succ_filter (ms : List MEnt) (i : Nat) (m : MEnt) (hm : ms[i]? = so
   congr 1
   by_cases h : P m <;> simp [List.filter, h]
 
-theorem cinv {es : List Entry} (sc : SpecConforming es) :
+theorem cinv {es : List Entry} (sc : SpecConformingR es) :
     ∀ i, i ≤ es.length → CInv (pass1 es) i (cRun (pass1 es) es i) := by
   intro i
   induction i with
@@ -3740,9 +3746,9 @@ theorem cinv {es : List Entry} (sc : SpecConforming es) :
         · split <;> simp [cAppend]
         · split <;> simp [cAppend]
 
-end SV.Toc
+end SV.Toc.R
 
-namespace SV.Toc
+namespace SV.Toc.R
 
 /-- chunk entries the memory store files under the name `p` -/
 def Pp (p : Path) (m : MEnt) : Bool := m.e.type = "chunk" ∧ m.path = p
@@ -3809,9 +3815,9 @@ theorem go_rows (ms : List MEnt) (p : Path) : ∀ (d i : Nat) (acc : List Nat), 
       simp only [hP, ↓reduceIte, List.filter, hPp]
       exact ⟨trivial, trivial⟩
 
-end SV.Toc
+end SV.Toc.R
 
-namespace SV.Toc
+namespace SV.Toc.R
 
 /-- row tables that tile `[0, size)`: the memory store's shortcut for fewer than two rows and the
 db store's recomputed table answer alike -/
@@ -3871,14 +3877,14 @@ theorem contig_of_ok (size : Int) : ∀ (l : List MEnt) (start : Int),
     · subst e; exact ⟨h3, by rw [normSize_eff _ _ h2]; exact h4⟩
     · exact ih2 m e
 
-theorem Contig.lt_of_ne_nil {rows : List Chunk} {s t : Int} (h : Contig s t rows) (hne : rows ≠ []) : s < t := by
+theorem contig_lt_of_ne_nil {rows : List Chunk} {s t : Int} (h : Contig s t rows) (hne : rows ≠ []) : s < t := by
   cases rows with
   | nil => exact absurd rfl hne
   | cons r rs => have := h.2.2.le; have := h.2.1; omega
 
-end SV.Toc
+end SV.Toc.R
 
-namespace SV.Toc
+namespace SV.Toc.R
 
 theorem mem_take_index {α : Type} {l : List α} {r : Nat} {a : α} (h : a ∈ l.take r) :
     ∃ u, u < r ∧ l[u]? = some a := by
@@ -3896,7 +3902,7 @@ theorem mem_drop_index {α : Type} {l : List α} {k : Nat} {a : α} (h : a ∈ l
   exact ⟨k + u, by omega, by rw [← hxu]; exact List.getElem?_eq_getElem this⟩
 
 /-- nothing before a file carries its name -/
-theorem before_file {es : List Entry} (sc : SpecConforming es) {r : Nat} {mr : MEnt}
+theorem before_file {es : List Entry} (sc : SpecConformingR es) {r : Nat} {mr : MEnt}
     (hmr : (pass1 es)[r]? = some mr) (hnc : mr.e.type ≠ "chunk") (hnd : mr.e.type ≠ "dir") :
     ∀ m ∈ (pass1 es).take r, m.path ≠ mr.path := by
   intro m hm hp
@@ -3909,7 +3915,7 @@ theorem before_file {es : List Entry} (sc : SpecConforming es) {r : Nat} {mr : M
   · have := owner_unique sc hmu hmr hc hnc hp (Or.inr hnd)
     omega
 
-theorem after_file {es : List Entry} (sc : SpecConforming es) {r : Nat} {mr : MEnt}
+theorem after_file {es : List Entry} (sc : SpecConformingR es) {r : Nat} {mr : MEnt}
     (hmr : (pass1 es)[r]? = some mr) (hnc : mr.e.type ≠ "chunk") (hnd : mr.e.type ≠ "dir") :
     ∀ m ∈ (pass1 es).drop (r + 1), m.e.type = "reg" → m.path ≠ mr.path := by
   intro m hm hreg hp
@@ -3926,7 +3932,7 @@ theorem split_at {α : Type} (l : List α) (r : Nat) (a : α) (h : l[r]? = some 
 
 /-- `r.chunks[name]` of a file: the `reg` entry itself when it opens a chunked file, then the
 chunk entries carrying its name -/
-theorem mem_table {es : List Entry} (sc : SpecConforming es) {r : Nat} {mr : MEnt}
+theorem mem_table {es : List Entry} (sc : SpecConformingR es) {r : Nat} {mr : MEnt}
     (hmr : (pass1 es)[r]? = some mr) (hreg : mr.e.type = "reg") :
     memRows (pass1 es) (memChunkIdxs (pass1 es) mr.path) =
       (if mr.e.chunkSize > 0 ∧ mr.e.chunkSize < mr.e.size then [rowM mr] else []) ++
@@ -3969,9 +3975,9 @@ theorem mem_table {es : List Entry} (sc : SpecConforming es) {r : Nat} {mr : MEn
   · congr 1
     split <;> rfl
 
-end SV.Toc
+end SV.Toc.R
 
-namespace SV.Toc
+namespace SV.Toc.R
 
 theorem pass1_nonchunk_size {es : List Entry} {r : Nat} {mr : MEnt}
     (hmr : (pass1 es)[r]? = some mr) (hnc : mr.e.type ≠ "chunk") : mr.chunkSize = regEff mr.e := by
@@ -3987,7 +3993,7 @@ theorem pass1_nonchunk_size {es : List Entry} {r : Nat} {mr : MEnt}
 
 /-- The chunk tables of one regular file in both stores: same answer at every file offset, same
 first blob offset. -/
-theorem file_agree {es : List Entry} (sc : SpecConforming es) {r : Nat} {mr : MEnt}
+theorem file_agree {es : List Entry} (sc : SpecConformingR es) {r : Nat} {mr : MEnt}
     (hmr : (pass1 es)[r]? = some mr) (hreg : mr.e.type = "reg") :
     (∀ x, 0 ≤ x →
       (if (memChunkIdxs (pass1 es) mr.path).length < 2 then
@@ -4108,7 +4114,7 @@ theorem file_agree {es : List Entry} (sc : SpecConforming es) {r : Nat} {mr : ME
       simp only [Nat.zero_lt_succ, ↓reduceIte, List.map_nil, rowM]
     | cons c cs =>
       rw [hCs] at hlen htab hct
-      have hlt := hct.lt_of_ne_nil (by simp)
+      have hlt := contig_lt_of_ne_nil hct (by simp)
       have hreset : mr.e.chunkSize > 0 ∧ mr.e.chunkSize < mr.e.size := by
         simp only [regEff] at hlt hreff
         split at hlt <;> omega
@@ -4117,4 +4123,723 @@ theorem file_agree {es : List Entry} (sc : SpecConforming es) {r : Nat} {mr : ME
       rw [if_neg hge, htab]
       simp only [List.map_cons, List.singleton_append]
 
-end SV.Toc
+end SV.Toc.R
+
+namespace SV.Toc.R
+
+
+/-! # Part 7: the two trees of a SpecConformingR TOC agree -/
+
+theorem getKid_nil (b : String) : getKid b [] = none := rfl
+
+theorem final_states {es : List Entry} (sc : SpecConformingR es) :
+    ∃ smF sdF, pass2 (pass1 es) (enumFrom' 0 (pass1 es)) { nl := initNl (pass1 es) } = some smF ∧
+      dRun (enumFrom' 0 es) dInit = .inl sdF ∧
+      Inv (pass1 es) es.length smF sdF [] (fun _ => 0) ∧
+      cproj sdF = cRun (pass1 es) es es.length ∧ [] ∈ smF.imps ∧ HlOK (pass1 es) es.length smF ∧
+      MK (pass1 es) es.length smF := by
+  have ok := spec_treeOK sc
+  obtain ⟨smF, sdF, h1, h2, inv, hcp, hhl⟩ := run_sim ok (spec_first sc) es.length 0
+    { nl := initNl (pass1 es) } dInit (by omega) (Nat.zero_le _) (init_inv _) rfl
+    (fun ⟨j, _, hj, _⟩ => by omega) (fun _ h => by cases h)
+  have hmk : MK (pass1 es) es.length smF := by
+    have := mk_run ok (pass1 es).length 0 _ smF (by omega) (mk_init _) h1
+    rw [pass1_length] at this; exact this
+  simp only [List.drop_zero] at h1 h2
+  refine ⟨smF, sdF, h1, h2, inv, hcp, ?_, hhl, hmk⟩
+  -- some entry has been linked below the root, so the root directory exists
+  obtain ⟨i, hi, hci⟩ := sc.nonEmpty
+  have hil : i < (pass1 es).length := by rw [pass1_length]; exact hi
+  have hm : (pass1 es)[i]? = some (pass1 es)[i] := List.getElem?_eq_getElem hil
+  obtain ⟨_, hee⟩ := spec_es_ms hm
+  have hc : ((pass1 es)[i]).e.type ≠ "chunk" := by rw [← hee]; exact hci
+  have hnc : NonChunkAt (pass1 es) i ((pass1 es)[i]).path := ⟨_, hm, hc, rfl⟩
+  have hne : ((pass1 es)[i]).path ≠ [] := fun e => ok.noRoot i (e ▸ hnc)
+  obtain ⟨f, hf, hfi⟩ := firstIdx_isSome hnc
+  have hw := inv.walk ((pass1 es)[i]).path
+  simp only [List.not_mem_nil, ↓reduceIte] at hw
+  have hlook : look (pass1 es) es.length smF.imps ((pass1 es)[i]).path = some (resolveKey (pass1 es) f) := by
+    unfold look; rw [if_neg hne, hf]
+    have : f < es.length := by omega
+    simp [this]
+  rw [hlook] at hw
+  apply inv.rootImp
+  intro hnil
+  have hk := inv.kids .root trivial
+  rw [hnil] at hk
+  have hk' : sdF.kids .root = [] := hk
+  cases hp : ((pass1 es)[i]).path with
+  | nil => exact hne hp
+  | cons b rest =>
+    rw [hp] at hw
+    simp only [walkKids, hk', getKid_nil] at hw
+    cases hw
+
+theorem memTree_accept {es : List Entry} {smF : MState}
+    (h : pass2 (pass1 es) (enumFrom' 0 (pass1 es)) { nl := initNl (pass1 es) } = some smF)
+    (hroot : [] ∈ smF.imps) (hl : lastIdx (pass1 es) [] = none)
+    (hsrc : ∀ org, org ∈ smF.hlSources → smF.kids org = []) :
+    memTree es = .accept { root := .root, node := memNode (pass1 es) smF } := by
+  unfold memTree
+  simp only [h]
+  have hany : (smF.hlSources.any fun org => ¬ (smF.kids org).isEmpty) = false := by
+    rw [List.any_eq_false]
+    intro org horg
+    simp [hsrc org horg]
+  simp only [hany, Bool.false_eq_true, ↓reduceIte]
+  have hlen : lenM (pass1 es) smF ≠ 0 := by
+    unfold lenM
+    have : 0 < smF.imps.length := List.length_pos_of_mem hroot
+    omega
+  simp only [hlen, ↓reduceIte]
+  have : mLookupResolved (pass1 es) smF [] = some .root := by
+    unfold mLookupResolved mLookup
+    rw [hl]
+    simp only [hroot, ↓reduceIte, impKey]
+    unfold mGetSource
+    simp [keyType]
+  rw [this]
+
+theorem dbTree_accept {es : List Entry} {sdF : DState} (h : dRun (enumFrom' 0 es) dInit = .inl sdF) :
+    dbTree es = .accept { root := .root, node := dbNode sdF } := by
+  unfold dbTree dInitNodes
+  rw [h]
+
+theorem mGetSource_nonhardlink (ms : List MEnt) (s : MState) (bound n : Nat) (k : Key)
+    (h : keyType ms k ≠ "hardlink") : mGetSource ms s bound n k = some k := by
+  unfold mGetSource; simp [h]
+
+theorem mLookupResolved_ent {ms : List MEnt} (s : MState) {j : Nat} {m : MEnt}
+    (hm : ms[j]? = some m) (hl : lastIdx ms m.path = some j) (hh : m.e.type ≠ "hardlink") :
+    mLookupResolved ms s m.path = some (.ent j) := by
+  unfold mLookupResolved mLookup
+  rw [hl]
+  exact mGetSource_nonhardlink ms s _ 0 _ (by rw [keyType_ent hm]; exact hh)
+
+theorem validTypes_cases {t : String} (h : t ∈ validTypes) (hc : t ≠ "chunk") (hh : t ≠ "hardlink") :
+    t = "reg" ∨ t = "dir" ∨ t = "symlink" ∨ t = "char" ∨ t = "block" ∨ t = "fifo" := by
+  simp only [validTypes, List.mem_cons, List.not_mem_nil, or_false] at h
+  rcases h with h | h | h | h | h | h | h | h
+  · exact Or.inr (Or.inl h)
+  · exact Or.inl h
+  · exact Or.inr (Or.inr (Or.inl h))
+  · exact absurd h hh
+  · exact Or.inr (Or.inr (Or.inr (Or.inl h)))
+  · exact Or.inr (Or.inr (Or.inr (Or.inr (Or.inl h))))
+  · exact Or.inr (Or.inr (Or.inr (Or.inr (Or.inr h))))
+  · exact absurd h hc
+
+theorem readChunks_nil (size : Int) : readChunks [] size = [] := rfl
+
+/-- at the end every directory name has been counted by the memory store -/
+theorem pendOwn_end {ms : List MEnt} {n : Nat} (hn : ms.length ≤ n) (k : Key)
+    (hk : ∀ f, k = .ent f → f < n) : pendOwn ms n k = 0 := by
+  cases k with
+  | root => rfl
+  | imp p => rfl
+  | ent f =>
+    have hf := hk f rfl
+    simp only [pendOwn]
+    split
+    · rename_i L hL
+      have : L < n := by
+        simp only [lastOf] at hL
+        split at hL
+        · split at hL
+          · split at hL
+            · rename_i L' hL'
+              cases hL
+              obtain ⟨mL, hmL, _⟩ := lastIdx_nonChunk hL'
+              have := (List.getElem?_eq_some_iff.mp hmL).1
+              omega
+            · cases hL; exact hf
+          · cases hL; exact hf
+        · cases hL; exact hf
+      have h' : ¬ n ≤ L := by omega
+      simp [h']
+    · rfl
+
+/-- the memory-side entry standing for a db node: the last entry of the name -/
+theorem mem_entry {ms : List MEnt} (ok : TreeOK ms) {f : Nat} {mf : MEnt}
+    (hmf : ms[f]? = some mf) (hcf : mf.e.type ≠ "chunk") (hhf : mf.e.type ≠ "hardlink") :
+    ∃ L mL, ms[L]? = some mL ∧ lastOf ms (.ent f) = .ent L ∧ lastIdx ms mL.path = some L ∧
+      mL.e.type = mf.e.type ∧ attrOfEntry mL.e 0 = attrOfEntry mf.e 0 ∧ (mf.e.type ≠ "dir" → L = f) := by
+  by_cases hd : mf.e.type = "dir"
+  · obtain ⟨_, L, _, hL, _, _⟩ := dir_first_last hmf hd
+    obtain ⟨mL, hmL, hcL, hpL⟩ := lastIdx_nonChunk hL
+    obtain ⟨h1, h2⟩ := same_name_dir ok hmf hmL hcf hcL hpL.symm hd
+    exact ⟨L, mL, hmL, lastOf_of_dir hmf hd hL, by rw [hpL]; exact hL, by rw [h1, hd], h2.symm,
+      fun h => absurd hd h⟩
+  · exact ⟨f, mf, hmf, lastOf_of_nondir hmf hd, (nondir_first_last ok hmf hcf hd).2, rfl, rfl, fun _ => rfl⟩
+
+/-- every node that exists is described alike by both stores -/
+theorem node_agree {es : List Entry} (sc : SpecConformingR es) {smF : MState} {sdF : DState}
+    (inv : Inv (pass1 es) es.length smF sdF [] (fun _ => 0))
+    (hcp : cproj sdF = cRun (pass1 es) es es.length) (hroot : [] ∈ smF.imps)
+    (k : Key) (hk : Created (pass1 es) es.length smF.imps k) :
+    NodeAgree (canon (pass1 es)) (memNode (pass1 es) smF (lastOf (pass1 es) k)) (dbNode sdF k) := by
+  have ok := spec_treeOK sc
+  obtain ⟨b, hb, hbe, hbn⟩ := inv.node k hk
+  have hnl : readNumLink b = smF.nl (lastOf (pass1 es) k) := by
+    rw [hbn, pendOwn_end (by rw [pass1_length]; exact Nat.le_refl _) k (by
+      intro f e; rw [e] at hk; exact hk.1)]
+    unfold nlEff; simp [hroot]
+  have hchunks : sdF.chunks = (cRun (pass1 es) es es.length).chunks := by
+    have := congrArg CState.chunks hcp; exact this
+  have hcinv := cinv sc es.length (Nat.le_refl _)
+  -- children exist
+  have herr2 : ((sdF.kids k).any fun kv => (sdF.nodes kv.2).isNone) = false := by
+    rw [List.any_eq_false]
+    intro kv hkv
+    obtain ⟨b', hb', _, _⟩ := inv.node kv.2 (inv.kidsCreated k kv hkv)
+    simp [hb']
+  have hdb : dbNode sdF k =
+      { attr := readAttr b,
+        offset := ((readChunks (sdF.chunks k) (readAttr b).size).head?.map (·.offset)).getD 0,
+        openOk := fmIsRegular (readAttr b).mode,
+        chunks := .table (readChunks (sdF.chunks k) (readAttr b).size),
+        kids := sdF.kids k,
+        kidsErr := (sdF.kids k).any fun kv => (sdF.nodes kv.2).isNone } := by
+    unfold dbNode; rw [hb]
+  -- children maps
+  have hkids : sdF.kids k = (smF.kids (lastOf (pass1 es) k)).map (mapKV (canon (pass1 es))) := by
+    obtain ⟨h1, h2⟩ := canon_lastOf ok hk
+    by_cases hdir : IsDirKey (pass1 es) k
+    · have := inv.kids _ (h2 hdir)
+      rw [h1] at this
+      exact this
+    · rw [inv.noKids k (fun h => hdir h.2)]
+      have hnl : ¬ MLiveDir (pass1 es) (lastOf (pass1 es) k) := by
+        cases k with
+        | root => exact absurd trivial hdir
+        | imp p => exact absurd trivial hdir
+        | ent f =>
+          obtain ⟨_, mf, hmf, _, _, _⟩ := hk
+          have hnd : mf.e.type ≠ "dir" := fun e => hdir ⟨mf, hmf, e⟩
+          rw [lastOf_of_nondir hmf hnd]
+          rintro ⟨m', h1', h2', _⟩
+          rw [hmf] at h1'; cases h1'; exact hnd h2'
+      rw [inv.memNoKids _ hnl]; rfl
+  cases k with
+  | ent f =>
+    obtain ⟨hj, mf, hmf, hcf, hhf, hff⟩ := hk
+    obtain ⟨j, m, hm, hlo, hlast, hty', hat, hLf⟩ := mem_entry ok hmf hcf hhf
+    have hc : m.e.type ≠ "chunk" := by rw [hty']; exact hcf
+    have hh : m.e.type ≠ "hardlink" := by rw [hty']; exact hhf
+    rw [hlo] at hnl hkids ⊢
+    obtain ⟨hjl, hee⟩ := spec_es_ms hm
+    have hx : (m.e.xattrs.map Prod.fst).Nodup := by rw [← hee]; exact sc.xattrs j hjl
+    have ha0 : attr0 (pass1 es) (.ent f) = attrOfEntry m.e (if m.e.type = "dir" then 2 else 1) := by
+      have : attr0 (pass1 es) (.ent f) = attrOfEntry mf.e (if mf.e.type = "dir" then 2 else 1) := by
+        simp [attr0, hmf]
+      rw [this, hty', attrOfEntry_nl mf.e, attrOfEntry_nl m.e, hat]
+    obtain ⟨hattr, hmode, hsize⟩ := attr_agree b (attr0 (pass1 es) (.ent f)) (smF.nl (.ent j)) hbe hnl
+      (attr0_mode_lt _ _) (by rw [ha0]; exact hx)
+    have hres := mLookupResolved_ent smF hm hlast hh
+    have hmt : memChunkTab (pass1 es) smF (.ent j) =
+        if m.e.isData then
+          (if (memChunkIdxs (pass1 es) m.path).length < 2 then
+            ChunkTab.single m.e.chunkOffset m.chunkSize (memDigest m.e)
+           else ChunkTab.table (memRows (pass1 es) (memChunkIdxs (pass1 es) m.path)))
+        else ChunkTab.none := by
+      unfold memChunkTab
+      simp only [keyPath, hm, Option.map_some, Option.getD_some, hres]
+    have hm_attr : (memNode (pass1 es) smF (.ent j)).attr = attrOfEntry m.e (smF.nl (.ent j)) := by
+      simp [memNode, hm]
+    have hm_off : (memNode (pass1 es) smF (.ent j)).offset = m.e.offset := by simp [memNode, hm]
+    have hm_open : (memNode (pass1 es) smF (.ent j)).openOk = decide (m.e.type = "reg") := by
+      simp only [memNode, hm, hres, keyType_ent hm]
+    have hm_chunks : (memNode (pass1 es) smF (.ent j)).chunks = memChunkTab (pass1 es) smF (.ent j) := by
+      simp [memNode, hm]
+    have hm_kids : (memNode (pass1 es) smF (.ent j)).kids = smF.kids (.ent j) := by simp [memNode, hm]
+    have hm_ok : (memNode (pass1 es) smF (.ent j)).ok = true := by simp [memNode, hm]
+    have hm_err : (memNode (pass1 es) smF (.ent j)).kidsErr = false := by simp [memNode, hm]
+    rw [hdb]
+    have hsz' : (readAttr b).size = m.e.size := by rw [hsize, ha0]; rfl
+    have hmd' : (readAttr b).mode = goFileMode m.e.type m.e.mode := by rw [hmode, ha0]; rfl
+    have hty : m.e.type ∈ validTypes := by rw [← hee]; exact sc.types j hjl
+    have hothers : m.e.type ≠ "reg" → (cRun (pass1 es) es es.length).chunks (.ent f) = [] := by
+      intro hreg
+      exact hcinv.others (.ent f) (by
+        intro r mr hmr hregr e; cases e; rw [hmf] at hmr; cases hmr; rw [hty'] at hreg; exact hreg hregr)
+    refine ⟨hm_ok, rfl, hm_err, herr2, by rw [hm_kids]; exact hkids, ?_, ?_, ?_, ?_, ?_, ?_⟩
+    · rw [hm_attr]; show _ = normalise (readAttr b); rw [hattr, ha0]; rfl
+    · rw [hm_attr]; show _ = (readAttr b).mode; rw [hmd']; rfl
+    · rw [hm_attr]; show _ = (readAttr b).size; rw [hsz']; rfl
+    · -- GetOffset
+      rw [hm_off]
+      show m.e.offset = _
+      rw [hsz', hchunks]
+      by_cases hreg : m.e.type = "reg"
+      · have hjf : j = f := hLf (by rw [← hty', hreg]; decide)
+        subst hjf
+        exact (file_agree sc hm hreg).2.symm
+      · rw [hothers hreg, readChunks_nil]
+        have : m.e.offset = 0 := by rw [← hee]; exact sc.noOffset j hjl (by rw [hee]; exact hreg) (by rw [hee]; exact hc)
+        simp [this]
+    · -- OpenFile
+      rw [hm_open]
+      show _ = fmIsRegular (readAttr b).mode
+      rw [hmd', fmIsRegular_go]
+      rcases validTypes_cases hty hc hh with h | h | h | h | h | h <;> rw [h] <;> decide
+    · -- ChunkEntryForOffset
+      intro x hx0
+      rw [hm_chunks]
+      show (memChunkTab (pass1 es) smF (.ent j)).lookup x = _
+      rw [hmt, hsz', hchunks]
+      by_cases hreg : m.e.type = "reg"
+      · have hd : m.e.isData = true := by simp [Entry.isData, hreg]
+        rw [hd]
+        have hjf : j = f := hLf (by rw [← hty', hreg]; decide)
+        subst hjf
+        exact (file_agree sc hm hreg).1 x hx0
+      · have hd : m.e.isData = false := by simp [Entry.isData, hreg, hc]
+        rw [hd, hothers hreg, readChunks_nil]
+        simp [ChunkTab.lookup, searchChunk]
+  | root =>
+    have hlo : lastOf (pass1 es) .root = .root := rfl
+    rw [hlo] at hnl hkids ⊢
+    obtain ⟨hattr, hmode, hsize⟩ := attr_agree b (attr0 (pass1 es) .root) (smF.nl .root) hbe hnl
+      (attr0_mode_lt _ _) (by simp [attr0, rootAttr])
+    have hnotreg : ∀ r mr, (pass1 es)[r]? = some mr → mr.e.type = "reg" → Key.root ≠ .ent r := by
+      intro r mr _ _ e; cases e
+    have hmtab : memChunkTab (pass1 es) smF .root = .none := by
+      unfold memChunkTab mLookupResolved mLookup
+      have hl : lastIdx (pass1 es) [] = none := (lastIdx_eq_none_iff _ []).mpr ok.noRoot
+      simp only [keyPath, hl, hroot, ↓reduceIte, impKey]
+      rw [mGetSource_nonhardlink _ _ _ _ _ (by simp [keyType])]
+    rw [hdb]
+    have hm0 : (attr0 (pass1 es) .root).mode = modeDir + 0o755 := rfl
+    refine ⟨rfl, rfl, rfl, herr2, hkids, ?_, ?_, ?_, ?_, ?_, ?_⟩
+    · rw [hattr]; simp only [memNode, attr0, rootAttr]; rfl
+    · rw [hmode]; simp only [memNode, attr0, rootAttr]; decide
+    · rw [hsize]; rfl
+    · show (0 : Int) = _
+      rw [hchunks, hcinv.others .root hnotreg, readChunks_nil]; rfl
+    · show false = fmIsRegular (readAttr b).mode
+      rw [hmode, hm0]; decide
+    · intro x _
+      show (memChunkTab (pass1 es) smF .root).lookup x = _
+      rw [hmtab, hchunks, hcinv.others .root hnotreg, readChunks_nil]
+      simp [ChunkTab.lookup, searchChunk]
+  | imp p =>
+    have hlo : lastOf (pass1 es) (.imp p) = .imp p := rfl
+    rw [hlo] at hnl hkids ⊢
+    obtain ⟨hp, hpne⟩ := hk
+    obtain ⟨hattr, hmode, hsize⟩ := attr_agree b (attr0 (pass1 es) (.imp p)) (smF.nl (.imp p)) hbe hnl
+      (attr0_mode_lt _ _) (by simp [attr0, rootAttr])
+    have hnotreg : ∀ r mr, (pass1 es)[r]? = some mr → mr.e.type = "reg" → Key.imp p ≠ .ent r := by
+      intro r mr _ _ e; cases e
+    have hmtab : memChunkTab (pass1 es) smF (.imp p) = .none := by
+      unfold memChunkTab mLookupResolved mLookup
+      simp only [keyPath, inv.impsNone p hp, hp, ↓reduceIte, impKey, hpne]
+      rw [mGetSource_nonhardlink _ _ _ _ _ (by simp [keyType])]
+    rw [hdb]
+    have hm0 : (attr0 (pass1 es) (.imp p)).mode = modeDir + 0o755 := rfl
+    refine ⟨rfl, rfl, rfl, herr2, hkids, ?_, ?_, ?_, ?_, ?_, ?_⟩
+    · rw [hattr]; simp only [memNode, attr0, rootAttr]; rfl
+    · rw [hmode]; simp only [memNode, attr0, rootAttr]; decide
+    · rw [hsize]; rfl
+    · show (0 : Int) = _
+      rw [hchunks, hcinv.others _ hnotreg, readChunks_nil]; rfl
+    · show false = fmIsRegular (readAttr b).mode
+      rw [hmode, hm0]; decide
+    · intro x _
+      show (memChunkTab (pass1 es) smF (.imp p)).lookup x = _
+      rw [hmtab, hchunks, hcinv.others _ hnotreg, readChunks_nil]
+      simp [ChunkTab.lookup, searchChunk]
+
+
+theorem memNode_kids' (ms : List MEnt) (s : MState) (k : Key) :
+    (memNode ms s k).kids = s.kids k ∨ (memNode ms s k).kids = [] := by
+  cases k with
+  | root => exact Or.inl rfl
+  | imp p => exact Or.inl rfl
+  | ent j =>
+    simp only [memNode]
+    split
+    · exact Or.inl rfl
+    · exact Or.inr rfl
+
+/-- keys of the memory tree: the memory-side names of the nodes that exist -/
+def MemKey (ms : List MEnt) (n : Nat) (imps : List Path) (km : Key) : Prop :=
+  ∃ kd, Created ms n imps kd ∧ km = lastOf ms kd
+
+/-- a child held by the memory store is the memory-side name of its db node -/
+theorem kid_is_last {ms : List MEnt} (ok : TreeOK ms) {sm : MState} (mk : MK ms ms.length sm)
+    {k : Key} {kv : String × Key} (hkv : kv ∈ sm.kids k) : kv.2 = lastOf ms (canon ms kv.2) := by
+  cases hc : kv.2 with
+  | root => rfl
+  | imp p => rfl
+  | ent j =>
+    cases hm : ms[j]? with
+    | none => simp [canon, lastOf, hm]
+    | some mj =>
+      by_cases hd : mj.e.type = "dir"
+      · obtain ⟨h1, _, _, h4⟩ := mk.last k kv j mj hkv hc hm hd
+        have hnc : NonChunkAt ms j mj.path := ⟨mj, hm, dir_nonchunk hd, rfl⟩
+        obtain ⟨L, hL, hjL⟩ := lastIdx_isSome hnc
+        obtain ⟨mL, hmL, hcL, hpL⟩ := lastIdx_nonChunk hL
+        have hLn := (List.getElem?_eq_some_iff.mp hmL).1
+        have hLj : L = j := by
+          rcases Nat.lt_or_ge j L with h | h
+          · exact absurd hpL (h4 L mL h hLn hmL hcL)
+          · omega
+        subst hLj
+        exact (lastOf_canon ok (km := .ent L) ⟨mj, hm, hd, hL⟩).symm
+      · rw [canon_of_nondir hm hd, lastOf_of_nondir hm hd]
+
+/-- Both interpreters accept a SpecConformingR TOC and build trees that agree node by node, up to
+the renaming of directories announced more than once. -/
+theorem trees_agree {es : List Entry} (sc : SpecConformingR es) :
+    ∃ smF sdF,
+      memTree es = .accept { root := .root, node := memNode (pass1 es) smF } ∧
+      dbTree es = .accept { root := .root, node := dbNode sdF } ∧
+      TreesAgree (canon (pass1 es)) { root := .root, node := memNode (pass1 es) smF }
+        { root := .root, node := dbNode sdF } (MemKey (pass1 es) es.length smF.imps) := by
+  obtain ⟨smF, sdF, h1, h2, inv, hcp, hroot, hhl, mk⟩ := final_states sc
+  have ok := spec_treeOK sc
+  have hl : lastIdx (pass1 es) [] = none := (lastIdx_eq_none_iff _ []).mpr ok.noRoot
+  have hsrc : ∀ org, org ∈ smF.hlSources → smF.kids org = [] := by
+    intro org horg
+    apply inv.memNoKids
+    intro hlive
+    apply (hhl org horg).2
+    cases org with
+    | root => trivial
+    | imp p => trivial
+    | ent j => obtain ⟨m, hm, hd, _⟩ := hlive; exact ⟨m, hm, hd⟩
+  refine ⟨smF, sdF, memTree_accept h1 hroot hl hsrc, dbTree_accept h2, ⟨rfl, ⟨.root, trivial, rfl⟩, ?_, ?_, ?_⟩⟩
+  · rintro km ⟨kd, hkd, e⟩
+    subst e
+    show NodeAgree _ (memNode (pass1 es) smF (lastOf (pass1 es) kd)) (dbNode sdF (canon (pass1 es) (lastOf (pass1 es) kd)))
+    rw [(canon_lastOf ok hkd).1]
+    exact node_agree sc inv hcp hroot kd hkd
+  · rintro km ⟨kd, hkd, e⟩ kv hkv
+    simp only at hkv
+    rcases memNode_kids' (pass1 es) smF km with h | h
+    · rw [h] at hkv
+      have hlive : MLiveDir (pass1 es) km := by
+        apply Classical.byContradiction
+        intro hn
+        rw [inv.memNoKids km hn] at hkv
+        cases hkv
+      have hk := inv.kids km hlive
+      have hmem : canonKV (pass1 es) kv ∈ sdF.kids (canon (pass1 es) km) := by
+        rw [hk]; exact List.mem_map.mpr ⟨kv, hkv, rfl⟩
+      have hcr := inv.kidsCreated _ _ hmem
+      have mk' : MK (pass1 es) (pass1 es).length smF := by rw [pass1_length]; exact mk
+      exact ⟨canon (pass1 es) kv.2, hcr, kid_is_last ok mk' hkv⟩
+    · rw [h] at hkv; cases hkv
+  · rintro a b ⟨ka, hka, ea⟩ ⟨kb, hkb, eb⟩ hab
+    rw [ea, eb, (canon_lastOf ok hka).1, (canon_lastOf ok hkb).1] at hab
+    rw [ea, eb, hab]
+
+/-- the canonical views of both stores coincide -/
+theorem views_agree {es : List Entry} (sc : SpecConformingR es) :
+    ∃ tm td, memTree es = .accept tm ∧ dbTree es = .accept td ∧ view tm = view td := by
+  obtain ⟨smF, sdF, h1, h2, ag⟩ := trees_agree sc
+  exact ⟨_, _, h1, h2, view_agree ag⟩
+
+
+end SV.Toc.R
+
+namespace SV.Toc.R
+
+/-! ## The fragment without repeated names is included -/
+
+theorem idx_of_nodup {α β : Type} (f : α → β) (P : α → Bool) : ∀ (l : List α),
+    ((l.filter P).map f).Nodup → ∀ (i j : Nat) (hi : i < l.length) (hj : j < l.length),
+      P l[i] = true → P l[j] = true → f l[i] = f l[j] → i = j := by
+  intro l
+  induction l with
+  | nil => intro _ i j hi; simp at hi
+  | cons x xs ih =>
+    intro hn i j hi hj pi pj hf
+    by_cases hx : P x = true
+    · rw [List.filter_cons_of_pos hx, List.map_cons, List.nodup_cons] at hn
+      cases i with
+      | zero =>
+        cases j with
+        | zero => rfl
+        | succ j' =>
+          exfalso
+          apply hn.1
+          simp only [List.getElem_cons_zero, List.getElem_cons_succ] at hf pj
+          rw [hf]
+          exact List.mem_map.mpr ⟨_, List.mem_filter.mpr ⟨List.getElem_mem _, pj⟩, rfl⟩
+      | succ i' =>
+        cases j with
+        | zero =>
+          exfalso
+          apply hn.1
+          simp only [List.getElem_cons_zero, List.getElem_cons_succ] at hf pi
+          rw [← hf]
+          exact List.mem_map.mpr ⟨_, List.mem_filter.mpr ⟨List.getElem_mem _, pi⟩, rfl⟩
+        | succ j' =>
+          simp only [List.getElem_cons_succ] at hf pi pj
+          have := ih hn.2 i' j' (by simpa using hi) (by simpa using hj) pi pj hf
+          omega
+    · have hx' : ¬ (P x = true) := hx
+      rw [List.filter_cons_of_neg hx'] at hn
+      cases i with
+      | zero => simp only [List.getElem_cons_zero] at pi; exact absurd pi hx
+      | succ i' =>
+        cases j with
+        | zero => simp only [List.getElem_cons_zero] at pj; exact absurd pj hx
+        | succ j' =>
+          simp only [List.getElem_cons_succ] at hf pi pj
+          have := ih hn i' j' (by simpa using hi) (by simpa using hj) pi pj hf
+          omega
+
+theorem spec_of_nodup {es : List Entry} (sc : SpecConforming es) : SpecConformingR es := by
+  refine ⟨sc.types, sc.nonEmpty, sc.noRoot, ?_, ?_, sc.hardlinks, sc.chunkAfterData, sc.files, sc.noOffset,
+    sc.xattrs⟩
+  · intro i hi j hj hci hcj hp
+    left
+    exact idx_of_nodup (fun m : MEnt => m.path) ncB (pass1 es) sc.names i j hi hj (by simpa [ncB] using hci) (by simpa [ncB] using hcj) hp
+  · intro i hi hc n hn h0 j hj hcj hpj
+    obtain ⟨h1, h2⟩ := sc.parents i hi hc n hn h0 j hj hcj hpj
+    exact ⟨h1, j, hj, h2, hcj, hpj⟩
+
+end SV.Toc.R
+
+namespace SV.Toc.R
+
+/-! ## Repetitions of directory entries appended to a TOC without repeated names -/
+
+theorem pass1Go_append (a b : List Entry) : ∀ (lp : Path) (lr : Option Int),
+    ∃ lp' lr', pass1Go lp lr (a ++ b) = pass1Go lp lr a ++ pass1Go lp' lr' b := by
+  induction a with
+  | nil => intro lp lr; exact ⟨lp, lr, rfl⟩
+  | cons e es ih =>
+    intro lp lr
+    obtain ⟨lp', lr', h⟩ := ih (pass1Ent lp lr e).2.1 (pass1Ent lp lr e).2.2
+    exact ⟨lp', lr', by simp only [List.cons_append, pass1Go, h]⟩
+
+/-- what `StoresAgreeFull` says about the repeated entries -/
+def DupOf (es' : List Entry) (dup : List (Nat × Entry)) : Prop :=
+  ∀ d ∈ dup, ∃ h : d.1 < es'.length,
+    es'[d.1].type = "dir" ∧ d.2.type = "dir" ∧ cleanName d.2.name = cleanName es'[d.1].name ∧
+    { d.2 with name := "" } = { es'[d.1] with name := "" }
+
+theorem attr_of_noname {a b : Entry} (h : { a with name := "" } = { b with name := "" }) :
+    attrOfEntry a 0 = attrOfEntry b 0 ∧ a.type = b.type ∧ a.offset = b.offset ∧ a.xattrs = b.xattrs := by
+  have h1 := congrArg Entry.size h
+  have h2 := congrArg Entry.mtime h
+  have h3 := congrArg Entry.linkName h
+  have h4 := congrArg Entry.mode h
+  have h5 := congrArg Entry.uid h
+  have h6 := congrArg Entry.gid h
+  have h7 := congrArg Entry.devMajor h
+  have h8 := congrArg Entry.devMinor h
+  have h9 := congrArg Entry.xattrs h
+  have h10 := congrArg Entry.type h
+  have h11 := congrArg Entry.offset h
+  simp only at h1 h2 h3 h4 h5 h6 h7 h8 h9 h10 h11
+  refine ⟨?_, h10, h11, h9⟩
+  simp only [attrOfEntry, h1, h2, h3, h4, h5, h6, h7, h8, h9, h10]
+
+theorem spec_of_dups {es' : List Entry} (sc : SpecConforming es') (dup : List (Nat × Entry))
+    (hdup : DupOf es' dup) : SpecConformingR (es' ++ dup.map Prod.snd) := by
+  obtain ⟨lp', lr', happ⟩ := pass1Go_append es' (dup.map Prod.snd) [] none
+  have hms : pass1 (es' ++ dup.map Prod.snd) = pass1 es' ++ pass1Go lp' lr' (dup.map Prod.snd) := happ
+  have hn' : (pass1 es').length = es'.length := pass1_length es'
+  -- the old fragment, on optional indexing
+  have uniq : ∀ (i j : Nat) (a b : MEnt), (pass1 es')[i]? = some a → (pass1 es')[j]? = some b →
+      a.e.type ≠ "chunk" → b.e.type ≠ "chunk" → a.path = b.path → i = j := by
+    intro i j a b ha hb hca hcb hp
+    obtain ⟨hi, ea⟩ := get_of_getElem? ha
+    obtain ⟨hj, eb⟩ := get_of_getElem? hb
+    subst ea eb
+    exact idx_of_nodup (fun m : MEnt => m.path) ncB (pass1 es') sc.names i j hi hj
+      (by simpa [ncB] using hca) (by simpa [ncB] using hcb) hp
+  have par : ∀ (i : Nat) (a : MEnt), (pass1 es')[i]? = some a → a.e.type ≠ "chunk" →
+      ∀ n, n < a.path.length → 0 < n → ∀ (j : Nat) (b : MEnt), (pass1 es')[j]? = some b →
+        b.e.type ≠ "chunk" → b.path = a.path.take n → b.e.type = "dir" ∧ j < i := by
+    intro i a ha hca n hn h0 j b hb hcb hp
+    obtain ⟨hi, ea⟩ := get_of_getElem? ha
+    obtain ⟨hj, eb⟩ := get_of_getElem? hb
+    subst ea eb
+    exact sc.parents i hi hca n hn h0 j hj hcb hp
+  -- every entry of the long TOC stands for an entry of the short one
+  have src : ∀ (i : Nat) (m : MEnt), (pass1 (es' ++ dup.map Prod.snd))[i]? = some m →
+      (i < es'.length ∧ (pass1 es')[i]? = some m ∧ (es' ++ dup.map Prod.snd)[i]? = es'[i]?) ∨
+      (es'.length ≤ i ∧ m.e.type = "dir" ∧ ∃ s ms, s < es'.length ∧ (pass1 es')[s]? = some ms ∧
+        ms.e.type = "dir" ∧ m.path = ms.path ∧ { m.e with name := "" } = { ms.e with name := "" }) := by
+    intro i m hm
+    rw [hms] at hm
+    by_cases hi : i < es'.length
+    · left
+      rw [List.getElem?_append_left (by rw [hn']; exact hi)] at hm
+      exact ⟨hi, hm, List.getElem?_append_left hi⟩
+    · right
+      rw [List.getElem?_append_right (by rw [hn']; omega)] at hm
+      obtain ⟨hD, hpath⟩ := pass1Go_getElem _ _ _ _ _ hm
+      rw [List.getElem?_map] at hD
+      cases hd : dup[i - (pass1 es').length]? with
+      | none => rw [hd] at hD; cases hD
+      | some d =>
+        rw [hd] at hD
+        simp only [Option.map_some, Option.some.injEq] at hD
+        obtain ⟨hs, h1, h2, h3, h4⟩ := hdup d (List.mem_of_getElem? hd)
+        have hsl : d.1 < (pass1 es').length := by rw [hn']; exact hs
+        have hms' : (pass1 es')[d.1]? = some (pass1 es')[d.1] := List.getElem?_eq_getElem hsl
+        obtain ⟨he, hp'⟩ := pass1_getElem es' d.1 _ hms'
+        have hee : es'[d.1] = ((pass1 es')[d.1]).e := by
+          rw [List.getElem?_eq_getElem hs] at he; exact Option.some.inj he
+        have htd : m.e.type = "dir" := by rw [← hD]; exact h2
+        refine ⟨by omega, htd, d.1, _, hs, hms', by rw [← hee]; exact h1, ?_, ?_⟩
+        · rw [hpath (by rw [htd]; decide), ← hD, h3, hee]
+          exact (hp' (by rw [← hee, h1]; decide)).symm
+        · rw [← hD, ← hee]; exact h4
+  -- a uniform description: the entry of the short TOC an entry stands for
+  have src' : ∀ (i : Nat) (m : MEnt), (pass1 (es' ++ dup.map Prod.snd))[i]? = some m → m.e.type ≠ "chunk" →
+      ∃ s ms, s ≤ i ∧ s < es'.length ∧ (pass1 es')[s]? = some ms ∧ ms.e.type ≠ "chunk" ∧ m.path = ms.path ∧
+        m.e.type = ms.e.type ∧ attrOfEntry m.e 0 = attrOfEntry ms.e 0 ∧
+        (i < es'.length → s = i ∧ ms = m) ∧ (es'.length ≤ i → m.e.type = "dir") := by
+    intro i m hm hc
+    rcases src i m hm with ⟨h1, h2, _⟩ | ⟨h1, h2, s, ms, h3, h4, h5, h6, h7⟩
+    · exact ⟨i, m, Nat.le_refl _, h1, h2, hc, rfl, rfl, rfl, fun _ => ⟨rfl, rfl⟩, fun h => by omega⟩
+    · obtain ⟨e1, e2, _, _⟩ := attr_of_noname h7
+      exact ⟨s, ms, by omega, h3, h4, by rw [h5]; decide, h6, e2, e1, fun h => by omega, fun _ => h2⟩
+  have hlen : (pass1 (es' ++ dup.map Prod.snd)).length = es'.length + dup.length := by
+    rw [pass1_length]; simp
+  refine ⟨?_, ?_, ?_, ?_, ?_, ?_, ?_, ?_, ?_, ?_⟩
+  · -- types
+    intro i hi
+    have hil : i < (pass1 (es' ++ dup.map Prod.snd)).length := by rw [pass1_length]; exact hi
+    have hm := List.getElem?_eq_getElem hil
+    obtain ⟨he, _⟩ := pass1_getElem _ i _ hm
+    rw [List.getElem?_eq_getElem hi] at he
+    have hee := Option.some.inj he
+    rcases src i _ hm with ⟨h1, _, h3⟩ | ⟨_, h2, _⟩
+    · rw [List.getElem?_eq_getElem hi, List.getElem?_eq_getElem h1] at h3
+      rw [Option.some.inj h3]; exact sc.types i h1
+    · rw [hee, h2]; decide
+  · -- nonEmpty
+    obtain ⟨i, hi, hc⟩ := sc.nonEmpty
+    refine ⟨i, by simp; omega, ?_⟩
+    rw [List.getElem_append_left hi]; exact hc
+  · -- noRoot
+    intro i hi hc hp
+    obtain ⟨s, ms, _, hs, hms', hcs, hps, _⟩ := src' i _ (List.getElem?_eq_getElem hi) hc
+    obtain ⟨hsl, e⟩ := get_of_getElem? hms'
+    subst e
+    exact sc.noRoot s hsl hcs (by rw [← hps]; exact hp)
+  · -- names
+    intro i hi j hj hci hcj hp
+    obtain ⟨s, ms, _, _, hms', hcs, hps, hts, has, hlo, hhi⟩ := src' i _ (List.getElem?_eq_getElem hi) hci
+    obtain ⟨s2, ms2, _, _, hms2', hcs2, hps2, hts2, has2, hlo2, hhi2⟩ := src' j _ (List.getElem?_eq_getElem hj) hcj
+    have hss : s = s2 := uniq s s2 ms ms2 hms' hms2' hcs hcs2 (by rw [← hps, ← hps2]; exact hp)
+    subst hss
+    rw [hms'] at hms2'; cases hms2'
+    by_cases h1 : i < es'.length
+    · by_cases h2 : j < es'.length
+      · left; rw [← (hlo h1).1, ← (hlo2 h2).1]
+      · right
+        have hd := hhi2 (by omega)
+        exact ⟨by rw [hts, ← hts2]; exact hd, hd, by rw [has, has2]⟩
+    · right
+      have hd := hhi (by omega)
+      exact ⟨hd, by rw [hts2, ← hts]; exact hd, by rw [has, has2]⟩
+  · -- parents
+    intro i hi hc n hn h0 j hj hcj hpj
+    obtain ⟨s, ms, hsi, hsl, hms', hcs, hps, _, _, _, _⟩ := src' i _ (List.getElem?_eq_getElem hi) hc
+    obtain ⟨s2, ms2, hs2j, hs2l, hms2', hcs2, hps2, hts2, _, _, _⟩ := src' j _ (List.getElem?_eq_getElem hj) hcj
+    rw [hps] at hn hpj
+    obtain ⟨hd, hlt⟩ := par s ms hms' hcs n hn h0 s2 ms2 hms2' hcs2 (by rw [← hps2]; exact hpj)
+    refine ⟨by rw [hts2]; exact hd, s2, by rw [hlen]; omega, by omega, ?_, ?_⟩
+    · have : (pass1 (es' ++ dup.map Prod.snd))[s2]? = some ms2 := by
+        rw [hms, List.getElem?_append_left (by rw [hn']; exact hs2l)]; exact hms2'
+      obtain ⟨_, e⟩ := get_of_getElem? this
+      rw [e]; exact hcs2
+    · have : (pass1 (es' ++ dup.map Prod.snd))[s2]? = some ms2 := by
+        rw [hms, List.getElem?_append_left (by rw [hn']; exact hs2l)]; exact hms2'
+      obtain ⟨_, e⟩ := get_of_getElem? this
+      rw [e, ← hps2]; rw [hps]; exact hpj
+  · -- hardlinks
+    intro i hi hh
+    rcases src i _ (List.getElem?_eq_getElem hi) with ⟨h1, h2, _⟩ | ⟨_, h2, _⟩
+    · obtain ⟨hil, e⟩ := get_of_getElem? h2
+      obtain ⟨j, hj, hji, h3, h4, h5⟩ := sc.hardlinks i hil (by rw [e]; exact hh)
+      have : (pass1 (es' ++ dup.map Prod.snd))[j]? = some (pass1 es')[j] := by
+        rw [hms, List.getElem?_append_left hj]; exact List.getElem?_eq_getElem hj
+      obtain ⟨hjl, e'⟩ := get_of_getElem? this
+      refine ⟨j, hjl, hji, by rw [e']; exact h3, ?_, by rw [e']; exact h5⟩
+      rw [e', h4, e]
+    · rw [h2] at hh; exact absurd hh (by decide)
+  · -- chunkAfterData
+    intro i hi hc
+    have hil : i < (pass1 (es' ++ dup.map Prod.snd)).length := by rw [pass1_length]; exact hi
+    have hm := List.getElem?_eq_getElem hil
+    obtain ⟨he, _⟩ := pass1_getElem _ i _ hm
+    rw [List.getElem?_eq_getElem hi] at he
+    have hee := Option.some.inj he
+    rcases src i _ hm with ⟨h1, _, h3⟩ | ⟨_, h2, _⟩
+    · rw [List.getElem?_eq_getElem hi, List.getElem?_eq_getElem h1] at h3
+      have h3' := Option.some.inj h3
+      obtain ⟨h0, hprev⟩ := sc.chunkAfterData i h1 (by rw [← h3']; exact hc)
+      refine ⟨h0, ?_⟩
+      rw [List.getElem_append_left (by omega)]; exact hprev
+    · rw [hee, h2] at hc; exact absurd hc (by decide)
+  · -- files
+    intro i hi hreg
+    rcases src i _ (List.getElem?_eq_getElem hi) with ⟨h1, h2, _⟩ | ⟨_, h2, _⟩
+    · obtain ⟨hil, e⟩ := get_of_getElem? h2
+      have hf := sc.files i hil (by rw [e]; exact hreg)
+      rw [e] at hf
+      have hco : ∀ p, chunksOf (pass1 (es' ++ dup.map Prod.snd)) p = chunksOf (pass1 es') p := by
+        intro p
+        unfold chunksOf
+        rw [hms, List.filter_append]
+        have : List.filter (fun m => decide (m.e.type = "chunk" ∧ m.path = p))
+            (pass1Go lp' lr' (dup.map Prod.snd)) = [] := by
+          rw [List.filter_eq_nil_iff]
+          intro t ht hP
+          simp only [decide_eq_true_eq] at hP
+          obtain ⟨k, hk⟩ := List.getElem?_of_mem ht
+          have hk' : (pass1 (es' ++ dup.map Prod.snd))[(pass1 es').length + k]? = some t := by
+            rw [hms, List.getElem?_append_right (by omega)]
+            simpa using hk
+          rcases src _ t hk' with ⟨h1', _, _⟩ | ⟨_, h2', _⟩
+          · omega
+          · rw [h2'] at hP; exact absurd hP.1 (by decide)
+        rw [this, List.append_nil]
+      rw [hco]; exact hf
+    · rw [h2] at hreg; exact absurd hreg (by decide)
+  · -- noOffset
+    intro i hi hnr hnc
+    have hil : i < (pass1 (es' ++ dup.map Prod.snd)).length := by rw [pass1_length]; exact hi
+    have hm := List.getElem?_eq_getElem hil
+    obtain ⟨he, _⟩ := pass1_getElem _ i _ hm
+    rw [List.getElem?_eq_getElem hi] at he
+    have hee := Option.some.inj he
+    rcases src i _ hm with ⟨h1, _, h3⟩ | ⟨_, h2, s, ms, hs, hms', hd, _, h7⟩
+    · rw [List.getElem?_eq_getElem hi, List.getElem?_eq_getElem h1] at h3
+      have h3' := Option.some.inj h3
+      rw [h3']; exact sc.noOffset i h1 (by rw [← h3']; exact hnr) (by rw [← h3']; exact hnc)
+    · obtain ⟨_, _, e3, _⟩ := attr_of_noname h7
+      rw [hee, e3]
+      obtain ⟨he', _⟩ := pass1_getElem es' s ms hms'
+      rw [List.getElem?_eq_getElem hs] at he'
+      rw [← Option.some.inj he']
+      exact sc.noOffset s hs (by rw [Option.some.inj he', hd]; decide) (by rw [Option.some.inj he', hd]; decide)
+  · -- xattrs
+    intro i hi
+    have hil : i < (pass1 (es' ++ dup.map Prod.snd)).length := by rw [pass1_length]; exact hi
+    have hm := List.getElem?_eq_getElem hil
+    obtain ⟨he, _⟩ := pass1_getElem _ i _ hm
+    rw [List.getElem?_eq_getElem hi] at he
+    have hee := Option.some.inj he
+    rcases src i _ hm with ⟨h1, _, h3⟩ | ⟨_, h2, s, ms, hs, hms', hd, _, h7⟩
+    · rw [List.getElem?_eq_getElem hi, List.getElem?_eq_getElem h1] at h3
+      rw [Option.some.inj h3]; exact sc.xattrs i h1
+    · obtain ⟨_, _, _, e4⟩ := attr_of_noname h7
+      rw [hee, e4]
+      obtain ⟨he', _⟩ := pass1_getElem es' s ms hms'
+      rw [List.getElem?_eq_getElem hs] at he'
+      rw [← Option.some.inj he']
+      exact sc.xattrs s hs
+
+end SV.Toc.R
